@@ -7,8 +7,10 @@ import (
 	"fmt"
 	"math/rand"
 	"strings"
+	"sync/atomic"
 	"testing"
 
+	"github.com/dominant-strategies/go-quai/core"
 	"github.com/dominant-strategies/go-quai/core/types"
 	"github.com/dominant-strategies/go-quai/ethdb"
 	"github.com/dominant-strategies/go-quai/ethdb/memorydb"
@@ -65,7 +67,7 @@ func (a action) run(n *hnet.Net) (err error) {
 		}
 	}()
 	for _, b := range a.blocks {
-		if e := n.Follow(b); e != nil {
+		if e := follow(n, b); e != nil {
 			if !known(e) {
 				return e
 			}
@@ -83,6 +85,31 @@ func (a action) run(n *hnet.Net) (err error) {
 		}
 	}
 	return nil
+}
+
+// transient: the errors for which Core.InsertChain keeps the block in the append queue and offers it again
+// (procAppendQueue); after c_pEtxRetryThreshold = 10 failed appends a dominant level fetches the missing pending
+// ETXs / rollup from its subordinate chain itself.
+func transient(err error) bool {
+	s := err.Error()
+	return strings.Contains(s, core.ErrSubNotSyncedToDom.Error()) || strings.Contains(s, core.ErrPendingEtxNotFound.Error()) ||
+		strings.Contains(s, core.ErrPendingEtxRollupNotFound.Error()) || strings.Contains(s, core.ErrBodyNotFound.Error())
+}
+
+// redeliveries counts the extra deliveries the append-queue retry needed (evidence only).
+var redeliveries int64
+
+// follow delivers a block the way the node's append queue does: a transient refusal is retried (the threshold is
+// counted per level, 40 deliveries cover all three).
+func follow(n *hnet.Net, b *hnet.Mined) error {
+	var e error
+	for try := 0; try < 40; try++ {
+		if e = n.Follow(b); e == nil || known(e) || !transient(e) {
+			break
+		}
+		atomic.AddInt64(&redeliveries, 1)
+	}
+	return e
 }
 
 func known(err error) bool {
@@ -173,12 +200,8 @@ func verify(m *mon.M, base *hnet.Net, im images, act action, acceptable map[stri
 		return e
 	}
 	if e := cont(); e != nil {
-		if zoneOnly {
-			m.Violation("cannot-continue-after-crash", e.Error(), wit)
-		} else {
-			// hierarchical appends are re-driven by the dominant chain / peers in production; not decided here
-			m.Eval(cls+":continue-not-decided", "")
-		}
+		// decided for every order: a half-finished hierarchical append is re-driven by the append queue's retries (follow)
+		m.Violation("cannot-continue-after-crash", e.Error(), wit)
 		return
 	}
 	want := act.blocks[len(act.blocks)-1].Hash
@@ -186,9 +209,7 @@ func verify(m *mon.M, base *hnet.Net, im images, act action, acceptable map[stri
 		want = next.Hash
 	}
 	if h := n2.Zone().Core.CurrentHeader(); h == nil || h.Hash() != want {
-		if zoneOnly {
-			m.Violation("does-not-reach-new-head-after-crash", fmt.Sprintf("zone head %v, expected %x", h.Hash().Hex(), want[:6]), wit)
-		}
+		m.Violation("does-not-reach-new-head-after-crash", fmt.Sprintf("zone head %v, expected %x", h.Hash().Hex(), want[:6]), wit)
 		return
 	}
 	bad, _, _ = n2.CheckHeadCommitment()
@@ -260,7 +281,8 @@ func TestC11(t *testing.T) {
 	m := mon.New(t, "C11", "crash")
 	defer m.Finish()
 	m.Rule("a 3-level hnet history with mixed traffic is recorded block by block together with database images; for sampled transitions (append of the next zone / region / prime block incl. execution, and a zone reorg of depth 2-4) the number N of database write operations (direct put/delete or whole batch commit, one global counter over the three levels) is counted in a dry run and then for every k in [0,N] the action is replayed on a copy with all writes after the k-th dropped, the cores are discarded and new cores opened on the surviving image: restart must succeed, the zone head must be the old or the new head, its UTXO root / set size must equal a database scan and its state must open, and the interrupted block plus one successor must append; class = action kind x kind of the first dropped operation; distinct = (action, k)")
-	m.Assume("unit of failure is a put/delete or a whole batch commit (storage-engine internals and fsync reordering are outside go-quai)", "for blocks coincident with a dominant chain only restart and head consistency are decided; re-driving a half-finished hierarchical append is the job of the dominant chain / peers in production", "protocol timeline and TrimDepths compressed")
+	m.Assume("unit of failure is a put/delete or a whole batch commit (storage-engine internals and fsync reordering are outside go-quai)", "a block the restarted node refuses with a transient error (sub not synced to dom, pending etx / rollup not found, body not found) is offered again like the append queue does (up to 40 deliveries; after 10 failed appends a dominant level fetches missing pending ETXs from its subordinate itself)", "protocol timeline and TrimDepths compressed")
+	defer func() { m.Extra("redeliveries_needed", atomic.LoadInt64(&redeliveries)) }()
 	r := m.Rand("history")
 	a, err := hnet.NewActivity(r, hnet.Options{})
 	if err != nil {
@@ -291,7 +313,11 @@ func TestC11(t *testing.T) {
 	if !m.Thorough() {
 		every = 1
 	}
-	// transitions late in the history so that blocks carry Qi spends, conversions, trimming
+	// transitions late in the history so that blocks carry Qi spends, conversions, trimming.
+	// The enumerations run after all mining is done and the base net is stopped: its worker keeps executing
+	// pool transactions once a second while every NewCore of the enumeration rewrites go-quai's global
+	// precompile table (a concurrent map access kills the process; nothing to do with the property).
+	var jobs []func()
 	picked := map[int]bool{}
 	budget := m.N(5, 30)
 	for i := nBlocks - 2; i >= 16 && len(picked) < budget; i-- {
@@ -306,7 +332,8 @@ func TestC11(t *testing.T) {
 			next = mined[i+2]
 		}
 		act := action{name: fmt.Sprintf("append-order%d/%s/block%d", o, blockKinds(mined[i+1].Blocks[2]), i+1), blocks: []*hnet.Mined{mined[i+1]}}
-		enumerate(m, base, imgs[i], act, []string{mined[i].Hash.Hex()}, next, o == 2, every)
+		i := i
+		jobs = append(jobs, func() { enumerate(m, base, imgs[i], act, []string{mined[i].Hash.Hex()}, next, o == 2, every) })
 	}
 	// a zone reorg: from the tip, hand an ancestor back and mine a competing branch; then crash while switching to it
 	tipImg := imgs[nBlocks-1]
@@ -329,6 +356,10 @@ func TestC11(t *testing.T) {
 	var oldBranch []string
 	for i := anc; i < nBlocks; i++ {
 		oldBranch = append(oldBranch, mined[i].Hash.Hex())
+	}
+	base.Stop()
+	for _, j := range jobs {
+		j()
 	}
 	enumerate(m, base, tipImg, act, oldBranch, nil, true, every)
 	m.Floor(100, 6)
